@@ -271,6 +271,21 @@ class World:
                             z3.If(z3.Length(fx) == 0, b, z3.Concat(b, z3.StringVal('['), fx, z3.StringVal(']'))),
                             z3.Concat(op(L(c)), self.acc('Functor', 'slash')(c), op(R(c)))))
 
+    # ---- opaque view of the spec functions (path feasibility only) -----
+    def abstract(self, e):
+        """replaces every recursive spec function by an uninterpreted twin.  Used for the path-feasibility
+        queries of the symbolic executor only (an over-approximation: more paths are kept, none is lost);
+        obligations are always discharged with the real definitions."""
+        if not hasattr(self, '_twins'):
+            self._twins = []
+            for f in (self.strip, self.erase, self.subst, self.nleaves, self.leaf, self.size, self.hasfeat, self.nargs, self.str_spec):
+                dom = [f.domain(i) for i in range(f.arity())]
+                g = z3.Function(f.name() + '_opaque', *dom, f.range())
+                self._twins.append((f, g(*[z3.Var(i, d) for i, d in enumerate(dom)])))
+        if not z3.is_expr(e):
+            return e
+        return z3.substitute_funs(e, *self._twins)
+
     # ---- python <-> z3 for concrete values (replay, concrete folding) ---
     def to_py(self, term):
         """ground z3 ADT term -> nested python tuples ('Atom', base, feat) ..."""
